@@ -188,6 +188,43 @@ def run(ctx):
                     "loop_heads_modelled": len(loops), "loop_heads_exercised": len(hit_l), "not_exercised": missing}
         if case_lines and not ctx.replay and missing:
             ctx.broken_ties.append(("grammar tie coverage", f"modelled functions / loops never entered: {missing}"))
+    # ---- (3) the fuel-limit catalogue still does what it is for (never keyed to one input: classes and counts only)
+    fuel_cov = {}
+    if ok and not ctx.replay:
+        gen = lambda f: open(os.path.join(vlib.LEAN, "GomlVerif", "Gen", f), encoding="utf-8").read()
+        try:
+            m = re.search(r"def unboundedLookaheadFns : List String := \[(.*?)\]", gen("Lookahead.lean"))
+            extracted_fns = re.findall(r'"([^"]+)"', m.group(1)) if m else None
+            m = re.search(r"def parserFuel : Nat := (\d+)", gen("Consts.lean"))
+            model_fuel = int(m.group(1)) if m else None
+        except OSError:
+            extracted_fns, model_fuel = None, None
+        covered = [x for x in stats.get("lookahead_fns_covered", "").split(",") if x]
+        measured = int(stats.get("measured_fuel", 0))
+        zero_by_class = {k.split(":", 1)[1]: int(v) for k, v in stats.items() if k.startswith("fuel_zero_class:")}
+        size_by_class = {k.split(":", 1)[1]: int(v) for k, v in stats.items() if k.startswith("fuel_limit_class:")}
+        fuel_cov = {
+            "measured_fuel_of_the_real_parser": measured, "parserFuel_of_the_model": model_fuel,
+            "unbounded_lookahead_functions_in_the_source": extracted_fns, "covered_by_the_catalogue": covered,
+            "catalogue_inputs_by_class": size_by_class, "inputs_that_ran_out_of_fuel_by_class": zero_by_class,
+            "inputs_that_ran_out_of_fuel_by_stream": {k.split(":", 1)[1]: int(v) for k, v in stats.items() if k.startswith("fuel_zero:")},
+        }
+        if extracted_fns is None or model_fuel is None:
+            ctx.broken_ties.append(("fuel-limit catalogue", "Gen/Lookahead.lean or Gen/Consts.lean unreadable"))
+        else:
+            missing = [f for f in extracted_fns if f not in covered]
+            if missing:
+                ctx.broken_ties.append(("fuel-limit catalogue", f"the parser looks ahead by a computed distance in {missing}, which no "
+                                        "`look-…` shape of harness/src/c12.rs::fuel_limit_inputs drives past the fuel limit"))
+            if measured != model_fuel:
+                ctx.broken_ties.append(("fuel-limit catalogue", f"the real parser answers {measured} looks before it says eof, the model's "
+                                        f"parserFuel is {model_fuel}"))
+            for cls in ("look", "wind", "after"):
+                if measured < 4096 and zero_by_class.get(cls, 0) == 0:
+                    ctx.broken_ties.append(("fuel-limit catalogue", f"no `{cls}-…` input makes the parser run out of fuel any more: "
+                                            "the catalogue no longer reaches the limit it is built around"))
+            if zero_by_class.get("flat", 0) != 0:
+                ctx.notes.append(f"fuel-limit catalogue: {zero_by_class['flat']} `flat-…` inputs (loops that consume a token per round) ran out of fuel")
 
     streams = {k.split(":", 1)[1]: int(v) for k, v in stats.items() if k.startswith("stream:")}
     cov = {
@@ -203,7 +240,12 @@ def run(ctx):
                                "special-edge family: 27 specials (BOM, U+FFFE, NUL, ZWSP, LS, PS, NBSP, NEL, CR, CRLF, LF, FF, VT, shebang lines, "
                                "BOM twice / after blank / before shebang, …) before, after, around, between and inside short texts, dictionary "
                                "tokens and corpus files; "
-                               "plus deeply nested inputs (12 shapes, depth 10^3..10^5) run in child processes on the default stack",
+                               "plus deeply nested inputs (12 shapes, depth 10^3..10^5) run in child processes on the default stack; "
+                               "fuel-limit catalogue (sizes from the MEASURED fuel F of the real parser: windows around F/4, F/3, F/2, F, and 2F+1): "
+                               "lookahead-only scans (`impl` + path in 10 positions), ~40 shapes of stacked frames that look while they unwind "
+                               "(closed, cut off, closers removed, in front of a re-checked `{`/`(`), ~35 loops that consume per round, and every "
+                               "item kind after a construct that leaves the parser out of fuel",
+        "fuel_limit_catalogue": fuel_cov,
         "harness_stats": {k: v for k, v in stats.items() if not k.startswith("stream:")},
         "lexer_tie_equal": n_lex_eq, "lexer_tie_diffs": len(lex_diffs),
         "tree_tie_cases": n_tree, "tree_tie_equal": n_tree_eq, "tree_tie_diffs": len(tree_diffs),
@@ -222,6 +264,10 @@ def run(ctx):
         "Parser::build_tree is modelled as two passes (forward-parent resolution, then cursor/builder); the real code interleaves them",
         "the parser's grammar functions (file::file …) are not modelled here: their real event lists are checked to lie inside "
         "the hypotheses of buildTree_lossless on every run (balanced, enough Advance events); C04 owns 'file consumes all tokens'",
+        "file_advances_cover_tokens / file_after_lookahead are about the top-level loop of Model/ParserFuel.lean with ARBITRARY item "
+        "parsers that satisfy StepOK and KeepsCovered (proved for every primitive and closed under composition), not about the "
+        "item parsers of file.rs one by one; that Parser::eof is the fuel-independent Input::eof is asserted by the translator "
+        "(extract_parser_consts) and observed by C04's fuel-ops tie",
     ]
     tb = ["Lean 4 kernel", "axioms: " + ",".join(ctx.proof["axioms"] or ["none"]),
           "tools/extract.py (regex subset parser, enum/attribute reader)", "harness/src/c12.rs (serialisation of tokens, events, green tree)",
